@@ -8,7 +8,8 @@ gate set) .  Oracle (independent of both): qiskit.quantum_info.Statevector of th
 """
 import json, math
 import numpy as np
-from qgv import core, wiring as W, gatecheck as gc
+from qgv import core, pyexpr, wiring as W
+from gen import frames
 
 CLASSES = ["binary", "grid", "standard", "efficient", "one"]
 
@@ -129,7 +130,12 @@ def classify(bad):
 
 def main(ctx):
     cov = ctx.coverage
-    ir, fmeta, gmeta, tie_broken = gc.regenerate()
+    tie_broken, fr_bad = None, []
+    try:
+        trees = frames.generate()
+        fr_bad = frames.validate(trees, ctx.rng, 12 if ctx.thorough else 5)
+    except (pyexpr.Unsupported, SyntaxError, OSError, KeyError, IndexError, AttributeError, TypeError) as e:
+        tie_broken = f"translator fails closed on NoiseFreeGates: {type(e).__name__}: {e}"
     lean = ctx.lean("QG.Props.C03") if tie_broken is None else None
     rng = ctx.rng
     fails, nontrivial, hist = [], set(), {}
@@ -188,9 +194,12 @@ def main(ctx):
                    "clbits, random product and (every third case) entangled psi0; index-based class on scattered labels and non-adjacent pairs; "
                    "non-trivial = distinct circuit with a two-qubit gate; oracle = Qiskit Statevector, 1e-9")
     cov["branch_histogram"] = hist
-    cov["programs"] = 11
+    cov["programs"] = 6
+    cov["frame_rendering_mismatches"] = len(fr_bad)
     cov["trusted_base"] += [
-        "translator for gates.py (harness/gen/gatesets*.py), validated by the translation validation of C04-C07",
+        "translator harness/gen/frames.py (NoiseFreeGates source text -> product trees in frame variables), validated on every run "
+        "by evaluating the rendering at actual values against the real NoiseFreeGates; closed forms of the partial products are "
+        "untrusted sympy hints re-checked by Lean (grind) step by step",
         "wiring model QG/Model/Wiring.lean tied by the correspondence of C08 (same driver)",
         "Qiskit's Statevector / standard gate matrices as the reference semantics of the ideal circuit; Qiskit's transpiler (thorough tier)"]
     ctx.assumptions += ["layered classes: qubit set {0..n-1}, adjacent pairs; nqubit = number of used qubits; psi0 factors in ascending qubit order",
@@ -207,7 +216,8 @@ def main(ctx):
                             "psi0": [[z.real, z.imag] for z in psi0] if psi0 is not None else None, "failure": bad},
                       f"{cls} circuit {json.dumps(ops)[:300]}: {bad}")
     if not fails:
-        broken = tie_broken or (None if lean.ok else f"Lean obligations fail: {list(lean.failed.items())[:3]}")
+        broken = tie_broken or (None if lean.ok else f"Lean obligations fail: {list(lean.failed.items())[:3]}") or \
+            (f"frame rendering validation: {fr_bad[0]}" if fr_bad else None)
         if broken:
             ctx.violation({"kind": "tie"}, {"broken": broken}, broken + "; the Qiskit oracle found no failing input", no_failing_input=True)
 
